@@ -87,6 +87,69 @@ pub fn check_parse_range(kind: Kind, pic: &str, text: &str) -> Result<bool, Stri
     }
 }
 
+/// The clock reads a date OUTSIDE the supported range (year 0 or earlier, 10000 or later): the
+/// clock-reading constructors and partial-picture parses must fail or return an in-range value.
+pub fn check_now_outside(y: i32, mo: u32, d: u32, tod: i64) -> Result<(), String> {
+    use sqldatetime::{Date, OracleDate, Timestamp};
+    let (h, mi, s, us) = ((tod / 3_600_000_000) as u32, (tod / 60_000_000 % 60) as u32, (tod / 1_000_000 % 60) as u32, (tod % 1_000_000) as u32);
+    ad::clock_set(y, mo, d, h, mi, s, us);
+    let out = guarded(|| -> Result<(), String> {
+        let reads0 = ad::clock_reads();
+        if let Ok(x) = Date::now() {
+            if !date_in_range(x.days() as i128) {
+                return Err(format!("Date::now() = day {} outside 0001-01-01..9999-12-31", x.days()));
+            }
+        }
+        if let Ok(x) = Timestamp::now() {
+            if !ts_in_range(x.usecs() as i128) {
+                return Err(format!("Timestamp::now() = {} outside the timestamp range", x.usecs()));
+            }
+        }
+        if let Ok(x) = OracleDate::now() {
+            if !ts_in_range(x.usecs() as i128) || x.usecs() % 1_000_000 != 0 {
+                return Err(format!("OracleDate::now() = {} outside the range / not a whole second", x.usecs()));
+            }
+        }
+        for t in [0i64, 1, 43_200_000_000, 86_399_999_999] {
+            if let Ok(x) = Timestamp::try_from(ad::time(t)) {
+                if !ts_in_range(x.usecs() as i128) {
+                    return Err(format!("Timestamp::try_from(Time {t}) = {} outside the timestamp range", x.usecs()));
+                }
+            }
+            if let Ok(x) = OracleDate::try_from(ad::time(t)) {
+                if !ts_in_range(x.usecs() as i128) || x.usecs() % 1_000_000 != 0 {
+                    return Err(format!("OracleDate::try_from(Time {t}) = {} outside the range / not a whole second", x.usecs()));
+                }
+            }
+        }
+        if ad::clock_reads() <= reads0 {
+            return Err("harness: the clock hook was not consulted".into());
+        }
+        // partial pictures take the year / month from this clock
+        for (text, pic) in [("", ""), ("15", "DD"), ("02-29", "MM-DD"), ("12", "MM"), ("10:20:30", "HH24:MI:SS"), ("7", "Y"), ("07", "YY"), ("007", "YYY"), ("366", "DDD"), ("Mon", "DY")] {
+            if let Ok(x) = Date::parse(text, pic) {
+                if !date_in_range(x.days() as i128) {
+                    return Err(format!("Date::parse({text:?}, {pic:?}) = day {} outside the range", x.days()));
+                }
+            }
+            if let Ok(x) = Timestamp::parse(text, pic) {
+                if !ts_in_range(x.usecs() as i128) {
+                    return Err(format!("Timestamp::parse({text:?}, {pic:?}) = {} outside the range", x.usecs()));
+                }
+            }
+            if let Ok(x) = OracleDate::parse(text, pic) {
+                if !ts_in_range(x.usecs() as i128) || x.usecs() % 1_000_000 != 0 {
+                    return Err(format!("OracleDate::parse({text:?}, {pic:?}) = {} outside the range / not a whole second", x.usecs()));
+                }
+            }
+        }
+        Ok(())
+    })
+    .unwrap_or_else(|p| Err(p));
+    ad::clock_clear();
+    out.map_err(|m| format!("with the clock at year {y}, {mo:02}-{d:02} +{tod} us (outside the supported range): {m}"))
+}
+
 pub fn eval(case: &Case) -> Verdict {
     let r: Result<(), String> = match case.kind.as_str() {
         "op" | "linear" => {
@@ -106,6 +169,7 @@ pub fn eval(case: &Case) -> Verdict {
         "parse" => check_parse_range(Kind::from_index(case.i[0] as usize), &case.s[0], &case.s[1]).map(|_| ()),
         "constant" => check_constant(case.i[0] as usize),
         "scale_range" => check_scale_range(Kind::from_index(case.i[0] as usize), case.i[1], f64::from_bits(case.i[2] as u64), case.i[3] != 0),
+        "now_outside" => check_now_outside(case.i[0] as i32, case.i[1] as u32, case.i[2] as u32, case.i[3] as i64),
         "now_leap" => super::c18::check_now_leap(case.i[0] as i32, case.i[1] as u32, case.i[2] as u32, case.i[3] as u32),
         "decode_int" => super::c15::check_decode_int(Kind::from_index(case.i[0] as usize), case.i[1], case.i[2] as usize).map(|_| ()),
         "ts_add_days" => c08::check_add_days(case.i[0], i2f(case.i[1]), case.i[2] != 0).map(|_| ()),
@@ -434,6 +498,19 @@ pub fn run(ctx: &Ctx) -> (Stats, Report) {
             }
         }
     }
+    // ... and with the clock outside the supported range altogether
+    for y in [0i32, -1, -4, -400, -4713, -9999, -262_142, 10_000, 10_001, 10_400, 99_999, 262_141] {
+        for (mo, d) in [(1u32, 1u32), (12, 31), (2, 28), (2, 29), (6, 15)] {
+            for tod in [0i64, 1, 43_200_000_000, 86_399_999_999] {
+                st.evaluations += 1;
+                st.nontrivial_enum += 1;
+                st.class("clock-outside-the-supported-range");
+                if let Err(m) = check_now_outside(y, mo, d, tod) {
+                    st.fail(0, Case::new(P, "now_outside", vec![y as i128, mo as i128, d as i128, tod as i128], vec![]), m);
+                }
+            }
+        }
+    }
     st.section("clock_constructors_leap_second", &mut mark);
 
     // the public constants are values handed out by the library too: each must be the documented
@@ -483,7 +560,7 @@ pub fn run(ctx: &Ctx) -> (Stats, Report) {
     st.section("scaling_at_the_limits", &mut mark);
 
     let rep = Report {
-        rule: format!("Operation table of {} safe public functions (constructors from fields and raw counts, conversions, the whole add/sub family, negation, mul/div by f64, 12 trunc + 12 round on three types, last_day_of_month, extract, Oracle-style operations) x cross products of boundary+seeded operand pools (first operand full pool, later operands small pools / extreme scalars incl. i32::MIN, u32::MAX, NaN, infinities), plus proptest-generated operands per unary/binary row. Oracle: every returned value (also each half of an extracted pair) satisfies the range predicate of its type (whole seconds for the Oracle-style date); rows with an exact integer model must return Ok(exact) iff the exact value is in range (no wrap, no clamp); month arithmetic must match the month model or fail. Parse: speller-built texts at, near and past the range edges must give Err or an in-range value. Deserialize: integers of every width (i8..u128, via serde's de::value deserializers) at the limits and shifted by multiples of 2^8..2^64 must give Err or exactly the in-range value they denote. Scaling: every pool interval x factors tuned to the range limit (limit / x, (limit +- 1) / x, bit neighbours, both signs, mul and div) must give Err or an in-range value. The public MIN / MAX / ZERO constants of all six types equal the documented limits. Clock: now() / try_from(Time) with the injected clock inside a leap second on boundary dates and both range ends must give Err or an in-range value. Non-trivial = result within one unit period of a range edge, or an error outcome; distinct by (row, operands).", ops.len()),
+        rule: format!("Operation table of {} safe public functions (constructors from fields and raw counts, conversions, the whole add/sub family, negation, mul/div by f64, 12 trunc + 12 round on three types, last_day_of_month, extract, Oracle-style operations) x cross products of boundary+seeded operand pools (first operand full pool, later operands small pools / extreme scalars incl. i32::MIN, u32::MAX, NaN, infinities), plus proptest-generated operands per unary/binary row. Oracle: every returned value (also each half of an extracted pair) satisfies the range predicate of its type (whole seconds for the Oracle-style date); rows with an exact integer model must return Ok(exact) iff the exact value is in range (no wrap, no clamp); month arithmetic must match the month model or fail. Parse: speller-built texts at, near and past the range edges must give Err or an in-range value. Deserialize: integers of every width (i8..u128, via serde's de::value deserializers) at the limits and shifted by multiples of 2^8..2^64 must give Err or exactly the in-range value they denote. Scaling: every pool interval x factors tuned to the range limit (limit / x, (limit +- 1) / x, bit neighbours, both signs, mul and div) must give Err or an in-range value. The public MIN / MAX / ZERO constants of all six types equal the documented limits. Clock: now() / try_from(Time) with the injected clock inside a leap second on boundary dates and both range ends must give Err or an in-range value; so must they, and parses of partial pictures, with the injected clock outside the supported range altogether (years 0, -1, ... -262142, 10000 ... 262141). Non-trivial = result within one unit period of a range edge, or an error outcome; distinct by (row, operands).", ops.len()),
         assumptions: vec!["operands are in-range values (built through the checked constructors); scalar arguments are unrestricted".into()],
         exhaustive: false,
         extra: Default::default(),
